@@ -55,7 +55,7 @@ Proof.
   revert l. induction ids as [|id ids IH]; intros l; simpl; [apply from_refl|].
   destruct (lookup kof keqb id l) as [i| |]; [| |apply from_refl].
   - intros x Hx. destruct (IH _ x Hx) as [H|[]]. left. eapply in_remove_at; eauto.
-  - unfold bind, emit. destruct mex; cbn [r_err r_st fail]; [apply from_refl|]. apply IH.
+  - unfold bind, emit. cbn [r_err r_st]. apply IH.
 Qed.
 
 Lemma delete_loop_keeps mex w ids l : keeps_unkeyed l (r_st (delete_loop kof keqb mex w ids l)).
@@ -63,7 +63,7 @@ Proof.
   revert l. induction ids as [|id ids IH]; intros l; simpl; [apply keeps_refl|].
   destruct (lookup kof keqb id l) as [i| |] eqn:E; [| |apply keeps_refl].
   - intros x Hx Hk. apply IH; [|assumption]. eapply keeps_remove_at; eauto.
-  - unfold bind, emit. destruct mex; cbn [r_err r_st fail]; [apply keeps_refl|]. apply IH.
+  - unfold bind, emit. cbn [r_err r_st]. apply IH.
 Qed.
 
 Lemma insert_dups_from mex (id_of : A -> option K) okeqb w seen i new l :
@@ -71,7 +71,7 @@ Lemma insert_dups_from mex (id_of : A -> option K) okeqb w seen i new l :
 Proof.
   revert seen i l. induction new as [|s new IH]; intros seen i l; simpl; [apply from_refl|].
   destruct (existsb (okeqb (id_of s)) seen).
-  - unfold bind, emit. destruct mex; cbn [r_err r_st fail]; [apply from_refl|].
+  - unfold bind, emit. cbn [r_err r_st].
     intros x Hx. destruct (IH _ _ _ x Hx); auto. right. now right.
   - intros x Hx. destruct (IH _ _ _ x Hx) as [H|H]; [|right; now right].
     rewrite insert_at_many in H. apply in_insert_many in H as [[<-|[]]|H]; [right; now left | now left].
@@ -82,7 +82,7 @@ Lemma insert_dups_keeps mex (id_of : A -> option K) okeqb w seen i new l :
 Proof.
   revert seen i l. induction new as [|s new IH]; intros seen i l x Hx; simpl; [assumption|].
   destruct (existsb (okeqb (id_of s)) seen).
-  - unfold bind, emit. destruct mex; cbn [r_err r_st fail]; [assumption|]. now apply IH.
+  - unfold bind, emit. cbn [r_err r_st]. now apply IH.
   - apply IH. rewrite insert_at_many. apply in_insert_many. now right.
 Qed.
 
